@@ -17,8 +17,55 @@ except Exception:                           # pragma: no cover
 SER_SRC = os.path.join(VERIF, "harness/C02/ser.c")
 
 
+EMIT_SRC = os.path.join(VERIF, "harness/C02/emit_wrap.c")
+
+
+def emit_correspondence(ctx, broken, quick):
+    """tie (a): Emit/Model.lean (W.* = allocator + constant pool + pure emitters the theorems are about) against the real
+    emit.c / regalloc.c through the wrapper TU, on generated slot tuples of all kinds: emitted words, max, regtemps,
+    allocated set and constant count must be identical."""
+    from . import emit_cases
+    exe = ctx.driver()
+    if exe is None:
+        return {"emit_lines": 0}
+    try:
+        # plain variant: janetc_emit_ss shifts an int32 register >= 0x8000 by 16 (signed overflow, UBSan aborts); harmless
+        hx = ctx.build.harness("plain", "c02emit", [EMIT_SRC])
+    except BuildError as e:
+        broken.append("harness emit_wrap.c does not compile against the current tree: %s" % str(e)[-300:])
+        ctx.broken.append(broken[-1])
+        return {"emit_lines": 0}
+    lines = emit_cases.cases(ctx.rng.fork("emit"), 8000 if quick else 120000)
+    chunks = [lines[i::8] for i in range(8)]
+
+    def one(ch):
+        a = subprocess.run([hx], input=("\n".join(ch) + "\n").encode(), stdout=subprocess.PIPE, stderr=subprocess.PIPE, timeout=600)
+        b = subprocess.run([exe], input=("\n".join("emit " + l for l in ch) + "\n").encode(), stdout=subprocess.PIPE, stderr=subprocess.PIPE, timeout=600)
+        return a.returncode, a.stdout.decode(errors="replace").splitlines(), b.stdout.decode(errors="replace").splitlines(), a.stderr.decode(errors="replace")[-300:]
+    diffs = []
+    n = 0
+    with cf.ThreadPoolExecutor(8) as ex:
+        for (rc, a, b, err), ch in zip(ex.map(one, chunks), chunks):
+            if rc != 0 or len(a) != len(ch) or len(b) != len(ch):
+                diffs.append({"line": "(process)", "impl": "rc=%s %s lines=%d" % (rc, err, len(a)), "model": "lines=%d" % len(b)})
+                continue
+            for l, x, y in zip(ch, a, b):
+                n += 1
+                if x.split() != y.split():
+                    diffs.append({"line": l, "impl": x[:400], "model": y[:400]})
+    if diffs:
+        broken.append("correspondence Emit/Model vs real emit.c: %d differing lines, first %r" % (len(diffs), diffs[0]))
+        ctx.broken.append(broken[-1])
+    kinds = {}
+    for l in lines:
+        kinds[l.split()[0]] = kinds.get(l.split()[0], 0) + 1
+    return {"emit_lines": n, "emit_diffs": len(diffs), "emit_first_diffs": diffs[:5], "emit_line_kinds": kinds, "emit_samples": lines[:3] + lines[-3:]}
+
+
 def lean_stage(ctx, broken, quick):
     cov = {}
+    cov.update(emit_correspondence(ctx, broken, quick))
+    ctx.say("emit correspondence: %d lines, %d diffs" % (cov.get("emit_lines", 0), cov.get("emit_diffs", 0)))
     if THEOREMS:
         broken += ctx.obligations("JanetModel.Props.C02", THEOREMS)
         if not quick:
